@@ -62,3 +62,6 @@ for d_, t_ in ((-80, "quick"), (-17, "quick"), (-1, "quick"), (0, "quick"), (1, 
         gi_pre=["--replace-calls", "crypto_sign_ed25519_verify_detached:s_verify_detached"], cbmc=["--unwind", "90", "--unwinding-assertions", "--object-bits", "12"],
         assumes=["crypto_sign_ed25519_verify_detached replaced by an arbitrary verdict (its check set: c06.f.verify_detached)", "memmove over-approximated: first 64 bytes and one ghost byte exact"],
         bound="message length <= 80 bytes, relative offset %d" % d_))
+
+OBLIGATIONS.append(ob("c07.f.sc_mul.a_1", "hf_mul_01", ["sc25519_mul"], "sc25519_mul(a, b) for a = 1 and every b < 2^256: result < L and congruent to b modulo L (exact integer arithmetic); sc25519_mul is a separate copy of the muladd arithmetic (used by scalar inversion and crypto_core_ed25519_scalar_mul)",
+       src="harness/sc_reduce.c", props=("C07", "C12"), defs=["-DAVAL=1", "-DAIDX=0"], assumes=SC, replayable=True, cbmc=["--unwind", "70", "--unwinding-assertions"], timeout=1500))
